@@ -211,6 +211,12 @@ def check(ctx, rep):
     rep.rule('R07.h', 'task ids are stable: the task slabs are only used through operations that keep every remaining task under its key', floor=2)
     _c09.check_slab_keys(rep, 'R07.h', core, 'crux_core::command::executor::Task', 'command tasks', 5, extra=('clear',))
     _c09.check_slab_keys(rep, 'R07.h', core, 'core::option::Option<core::pin::Pin<alloc::boxed::Box<dyn', 'core executor tasks', 4)
+    # R07.i: "can never be woken again" is read off the number of clones of the waker handed out for the poll: adaptors that keep clones of
+    # their own for as long as they live (flatten_unordered, buffer_unordered, select_all, ..) hide a task parked on a dropped request from
+    # that test; in the command runtime they are used only where tabled (shared with C13 R13.h / C04)
+    from rules.props import c04 as _c04
+    rep.rule('R07.i', 'adaptors that keep clones of the task waker are used only where tabled', floor=1)
+    _c04.check_waker_retaining_adaptors(rep, 'R07.i', core)
     # R07.d: the premise of the eviction test for the futures crux itself provides
     from rules.props import c05
     rep.rule('R07.d', 'every future provided by crux that stays Pending holds a clone of the current poll\'s waker (or is deliberately unwakeable): '
